@@ -7,7 +7,7 @@ import random
 
 from harness import core, sexp
 
-MWS = ['gzip', 'cache', 'stats', 'profile', 'cookie', 'ctxproc', 'getparam', 'postdata', 'scriptroot']
+MWS = ['gzip', 'cache', 'stats', 'profile', 'cookie', 'ctxproc', 'ctxproc_defaults', 'getparam', 'postdata', 'scriptroot']
 ACCEPT_ENCODINGS = [None, 'gzip', 'gzip, deflate', 'gzip;q=0', 'deflate, gzip;q=0.0', '*', 'identity', 'identity, *;q=0', 'br',
                     'gzip;q=0.5', 'deflate;q=1.0, gzip;q=0.001', '']
 AGENTS = [None, 'Mozilla/5.0 (compatible; MSIE 10.0; Windows NT 6.1; Trident/6.0)', 'curl/8']
@@ -22,6 +22,10 @@ SCENARIO = {
     '/vary_accept': ('GET', 'full', True), '/vary_cookie': ('GET', 'full', True),
     # a download the way werkzeug documents it: wrap_file + direct_passthrough (cannot be buffered)
     '/download': ('GET', 'full', True),
+    # a rendered context whose values are present but empty / zero / false
+    '/ctxfalsy': ('GET', 'full', False),
+    # two pages that carry the same application-chosen ETag (a revision tag) with different bodies
+    '/wiki/1': ('GET', 'full', True), '/wiki/2': ('GET', 'full', True),
 }
 
 
@@ -91,6 +95,14 @@ def build_app(mws):
         r.vary.add('Accept-Language')
         return r
 
+    def ctxfalsy():
+        return {'a': 0, 'b': []}
+
+    def wiki(n):
+        r = Response(body_for('text', 1500 + 700 * n), mimetype='text/plain')
+        r.set_etag('rev-3')
+        return r
+
     def download(request):
         import io
         from werkzeug.wsgi import wrap_file
@@ -99,11 +111,13 @@ def build_app(mws):
 
     inst = {'gzip': lambda: M.GzipMiddleware(), 'cache': lambda: M.HTTPCacheMiddleware(), 'stats': lambda: StatsMiddleware(),
             'profile': lambda: M.SimpleProfileMiddleware(), 'cookie': lambda: SignedCookieMiddleware(secret_key=b'k' * 20),
-            'ctxproc': lambda: M.ContextProcessor(), 'getparam': lambda: M.GetParamMiddleware(['q']),
+            'ctxproc': lambda: M.ContextProcessor(),
+            # a processor whose names every rendered context of this lab provides itself: with the default overwrite=False it adds nothing
+            'ctxproc_defaults': lambda: M.ContextProcessor(defaults={'a': 'DFLT-A', 'b': 'DFLT-B'}), 'getparam': lambda: M.GetParamMiddleware(['q']),
             'postdata': lambda: __import__('clastic.middleware.form', fromlist=['x']).PostDataMiddleware(['p']), 'scriptroot': lambda: __import__('clastic.middleware.url', fromlist=['x']).ScriptRootMiddleware()}
     routes = [('/ok', ok), ('/bin', binr), ('/empty', empty), ('/ctx', ctx, render_basic), ('/redir', redir),
               ('/raise404', raise404), ('/ret403', ret403), ('/ret503long', ret503long), ('/nb', nb), ('/boom', boom), ('/js', js),
-              ('/stream', stream), ('/pre', pre), ('/vary_accept', vary_accept), ('/vary_cookie', vary_cookie), ('/download', download), POST('/postonly', ok), ('/size/<n:int>/<kind>', sized)]
+              ('/stream', stream), ('/pre', pre), ('/vary_accept', vary_accept), ('/vary_cookie', vary_cookie), ('/download', download), ('/ctxfalsy', ctxfalsy, render_basic), ('/wiki/<n:int>', wiki), POST('/postonly', ok), ('/size/<n:int>/<kind>', sized)]
     return Application(routes, middlewares=[inst[m]() for m in mws])
 
 
